@@ -200,11 +200,13 @@ class Config:
             secure_sockets = self._create_sockets(self.bind)
             insecure_sockets = self._create_sockets(self.insecure_bind)
             quic_sockets = self._create_sockets(self.quic_bind, socket.SOCK_DGRAM)
-            self._set_quic_addresses(quic_sockets)
         else:
             secure_sockets = []
             insecure_sockets = self._create_sockets(self.bind)
             quic_sockets = []
+        # Also when there are none (no TLS), addresses recorded by an
+        # earlier call must not be advertised (alt-svc) any longer.
+        self._set_quic_addresses(quic_sockets)
         return Sockets(secure_sockets, insecure_sockets, quic_sockets)
 
     def _set_quic_addresses(self, sockets: List[socket.socket]) -> None:
